@@ -400,8 +400,18 @@ class World:
         from hydrodiy.gis.grid import Grid
         cs = self.cs
         fz = fbil.parent / "pack.zip"
-        inner = cs.choice("inner", ["", "dir/"])
+        inner = cs.choice("inner", ["", "dir/", "", "donn\u00e9es/"])
         want = [(fhdr, inner + fhdr.name), (fbil, inner + fbil.name)]
+        # how the other tool wrote the container: every variant is a valid
+        # archive holding the same bytes
+        method = cs.weighted("method", [(zipfile.ZIP_STORED, 4),
+                                        (zipfile.ZIP_DEFLATED, 4),
+                                        (zipfile.ZIP_BZIP2, 1),
+                                        (zipfile.ZIP_LZMA, 1)])
+        writer = cs.weighted("writer", [("write", 5), ("writestr", 2),
+                                        ("stream_zip64", 3)])
+        zcomment = cs.flip("zcomment", 20)
+        self.ctx.hit(f"fault.archive_written_by_{writer}_method_{method}")
         members = []
         others = [k for k in sorted(self.store) if k != key]
         if others and cs.flip("crowded", 45):
@@ -427,9 +437,17 @@ class World:
             members = members[:pos] + want + members[pos:]
         else:
             members = want
-        with zipfile.ZipFile(str(fz), "w") as z:
+        with zipfile.ZipFile(str(fz), "w", compression=method) as z:
+            if zcomment:
+                z.comment = b"packed by another tool"
             for src, arc in members:
-                z.write(str(src), arc)
+                if writer == "write":
+                    z.write(str(src), arc)
+                elif writer == "writestr":
+                    z.writestr(arc, Path(src).read_bytes())
+                else:
+                    with z.open(arc, "w", force_zip64=True) as fo:
+                        fo.write(Path(src).read_bytes())
         try:
             return Grid.from_zip(self.path_arg(fz, "lz"), inner + fhdr.name)
         finally:
@@ -543,9 +561,21 @@ class World:
         same = cs.flip("same_dtype", 55)
         dtn = m.dtype.name if same else cs.choice("dtype", DTYPES)
         same = same or np.dtype(dtn) == m.dtype
-        self.log.ev("clone_dtype", gid, dtn, same)
         arg = getattr(np, dtn) if cs.flip("as_type", 70) or not same \
             else g.dtype
+        spelled = "type"
+        if same and cs.flip("other_spelling", 45):
+            # the same type given as a dtype instance or a string, with or
+            # without an explicit byte order (rasters of either byte order)
+            nat = np.dtype(dtn)
+            spelled = cs.choice("spelling", ["instance", "name", "str",
+                                             "big", "little", "big_instance"])
+            arg = {"instance": nat, "name": dtn, "str": nat.str,
+                   "big": nat.newbyteorder(">").str,
+                   "little": nat.newbyteorder("<").str,
+                   "big_instance": nat.newbyteorder(">")}[spelled]
+            self.ctx.hit("probe.clone_dtype_spelled_" + spelled)
+        self.log.ev("clone_dtype", gid, dtn, same, spelled)
         with warnings.catch_warnings(), np.errstate(all="ignore"):
             warnings.simplefilter("ignore")
             try:
@@ -553,6 +583,24 @@ class World:
             except Exception as e:
                 raise Violation("clone_failed", f"grid#{gid}.clone({dtn}) "
                                 f"raised {e!r}", "clone_dtype")
+        if same and spelled != "type":
+            # checked here and through one save/load; it does not join the
+            # pool (methods outside the property need the dtype to be a type)
+            from hydrodiy.gis.grid import Grid
+            what = f"clone({arg!r}) of grid#{gid}"
+            check_grid(c, m, what, "clone_dtype")
+            fbil = self.root / "spelled.bil"
+            with warnings.catch_warnings():
+                warnings.simplefilter("ignore")
+                try:
+                    c.save(str(fbil))
+                    back = Grid.from_header(str(fbil.with_suffix(".hdr")))
+                except Exception as e:
+                    raise Violation("load_failed", f"save/load of {what} "
+                                    f"raised {e!r}", "clone_dtype")
+            check_grid(back, m, f"{what}, saved and loaded", "clone_dtype")
+            self.compared = True
+            return
         if same:
             check_grid(c, m, f"clone({dtn}) of grid#{gid}", "clone_dtype")
             cm = m.copy()
